@@ -56,6 +56,10 @@ func scenC01(c *ctx) {
 			c.rec.Emit(doGenerateHOTP(fmt.Sprintf("C01/bytepat/%d/%x", i, ctr), b32(key), ctr, P{Digits: okDigits[c.rng.Intn(len(okDigits))], Alg: a}))
 		}
 	}
+	// codes with five to seven leading zeros (see zeroRich)
+	for i, z := range zeroRich {
+		c.rec.Emit(doGenerateHOTP(fmt.Sprintf("C01/zeros/%d", i), b32(zeroRichKey), z.Ctr, P{Digits: uint8(z.D), Alg: uint8(z.Alg)}))
+	}
 	// nil parameter
 	for i := 0; i < c.n(30, 300); i++ {
 		key := c.someKey()
@@ -171,6 +175,9 @@ func scenC02(c *ctx) {
 			}
 		}
 	}
+	for i, z := range zeroRich {
+		emit("zeros", zeroRichKey, int64(z.Ctr*30)+int64(i%30), i, P{Digits: uint8(z.D), Alg: uint8(z.Alg), Period: 30})
+	}
 	// nil parameter = SHA1, 6 digits, 30 s
 	for i := 0; i < c.n(40, 400); i++ {
 		emit("nil", c.someKey(), c.rng.Int63n(1<<40), i, P{Nil: true})
@@ -260,6 +267,13 @@ func scenC03(c *ctx) {
 				}
 			}
 		}
+	}
+	// codes with five to seven leading zeros: accepted at their counter, and their neighbours' codes are not
+	for i, z := range zeroRich {
+		p := P{Digits: uint8(z.D), Alg: uint8(z.Alg), Skew: uint64(i % 2)}
+		c.rec.Emit(c.hotpValidateCase("zeros", zeroRichKey, b32(zeroRichKey), z.Ctr, p, 0, "exact"))
+		c.rec.Emit(c.hotpValidateCase("zeros", zeroRichKey, b32(zeroRichKey), z.Ctr+2, p, -2, "exact"))
+		c.rec.Emit(c.hotpValidateCase("zeros", zeroRichKey, b32(zeroRichKey), z.Ctr, p, 0, "leadplus"))
 	}
 	// max counter with window 0 (c+s = 2^64-1 is inside the domain)
 	for _, s := range []uint64{0, 1, 10} {
